@@ -130,30 +130,45 @@ def run(chk, tier):
                 chk.bad("R16.5", "%s::%s" % (enum, v), "unit %s::%s is built from %s but read back as %s: converting a unit to itself would not be the identity and conversions would not invert" % (enum, v, a_, b_), "rscel/src/context/default_funcs/uom.rs")
     chk.floor("R16.5", "unit variants", nun, 30)
     ub = F.body(UOM + "uom_convert_internal")
-    qu = mirq.BodyQ(ub)
-    fs = qu.call_sites(r"uom::Unit::from_str$")
-    oks = [i for (i, a_, v_, s_) in qu.aggregates(adt_suffix="result::Result") if v_ == "Ok"]
-    parsed = sorted(mirq.expr_of(qu, t["args"][0]) for i, t, pth in fs)
-    dom_ok = all(all(ub.dominates(f[0], o) for f in fs) for o in oks)
-    if parsed == ["p2", "p3"] and oks and dom_ok:
-        chk.ok("R16.6", "both unit names parsed before any success", {"ok_sites": len(oks)})
+    # decision table of uomConvert by symbolic execution (private helpers inlined, unit-name parsing opaque): every successful row has parsed BOTH
+    # names successfully and found the two units in the SAME quantity
+    import symex as _sxu, semtables as _stu
+
+    class UomPolicy(_stu.LogicPolicy):
+        max_paths = 40000
+
+        def stub(self, interp, st, path, c, args, t, caller):
+            if path.endswith("uom::Unit::from_str") or path.endswith("Unit as std::str::FromStr>::from_str"):
+                return [(st, ("call", "from_str", tuple(args), "R"))]
+            return None
+    try:
+        urows = _sxu.Interp(F, UomPolicy()).run(ub, [_sxu.U("v"), _sxu.U("from"), _sxu.U("to")])
+    except Exception as e_:
+        urows = []
+        chk.bad("R16.6", "uomConvert|extract", "symbolic execution failed: %s" % str(e_)[:100], ub.file)
+    n_ok, bad_parse, bad_cat, cats_seen = 0, [], [], set()
+    for st_, r_ in urows:
+        if not _sxu.render(r_).startswith("Result::Ok("):
+            continue
+        n_ok += 1
+        var = {str(c[3]): c[2] for c in st_.cond if c[0] == "variant"}
+        pf, pt = var.get("from_str(from)"), var.get("from_str(to)")
+        if pf not in ("Some", "Ok") or pt not in ("Some", "Ok"):
+            bad_parse.append((pf, pt))
+            continue
+        inner_f = var.get("from_str(from).%s.0" % pf)
+        inner_t = var.get("from_str(to).%s.0" % pt)
+        cats_seen.add(inner_f)
+        if inner_f is None or inner_f != inner_t:
+            bad_cat.append((inner_f, inner_t))
+    if n_ok and not bad_parse:
+        chk.ok("R16.6", "both unit names parsed before any success", {"successful rows": n_ok})
     else:
-        chk.bad("R16.6", "both unit names parsed before any success", "uom_convert_internal can return Ok on a path where the unit names %s were not both parsed (unknown units must fail, also when both names are equal)" % parsed, ub.file)
-    # same-quantity arms only: each Ok site is reached under matching variants of both parsed units
-    sw = qu.switches_on(F, UOM + "Unit")
-    cats = {}
-    for o in oks:
-        conds = []
-        for sblk, pl, arms, other in sw:
-            if ub.dominates(sblk, o):
-                hit = [v for v, tgt in arms.items() if tgt == o or ub.dominates(tgt, o)]
-                if len(hit) == 1:
-                    conds.append(hit[0])
-        cats[o] = conds
-    if oks and all(len(c) == 2 and c[0] == c[1] for c in cats.values()) and sorted(c[0] for c in cats.values()) == ["Mass", "Speed", "Temperature", "Volume"]:
-        chk.ok("R16.6", "conversion only within one quantity", sorted(c[0] for c in cats.values()))
+        chk.bad("R16.6", "both unit names parsed before any success", "uomConvert can succeed on a path where the unit names were not both parsed successfully (%s of %d successful rows): unknown units must fail" % (bad_parse[:2], n_ok), ub.file)
+    if n_ok and not bad_cat and cats_seen == {"Mass", "Volume", "Speed", "Temperature"}:
+        chk.ok("R16.6", "conversion only within one quantity", sorted(cats_seen))
     else:
-        chk.bad("R16.6", "conversion only within one quantity", "success sites of uom_convert_internal are reached under unit categories %s; a conversion must require the same quantity on both sides" % sorted(map(str, cats.values())), ub.file)
+        chk.bad("R16.6", "conversion only within one quantity", "uomConvert succeeds for units of different quantities %s (quantities with a successful row: %s)" % (bad_cat[:2], sorted(map(str, cats_seen))), ub.file)
     # ---- arithmetic rows of the value layer (symbolic execution of Add / Sub over the time variants)
     chk.rule("R16.7", "time arithmetic rows: t + d and d + t add d to t, t - d subtracts d from t, t1 - t2 is the signed distance from t2 to t1, d1 +/- d2 keep operand order; "
                       "each through chrono's checked / exact operation on the full-resolution payloads, None -> error")
